@@ -174,18 +174,33 @@ Qed.
 (* ---------------------------------------------------------------------------------------------- *)
 (* the alpha step *)
 Section Alpha.
-Variable name fresh : ExSyntax.text.
+Variable name fresh suffix : ExSyntax.text.
+Hypothesis Hfs : fresh = name ++ suffix.
 Hypothesis Hn : forall x, same_name x name = true -> is_from x = false.
 Hypothesis Hf : is_from fresh = false.
 
-Lemma alpha_args_from a :
-  existsb is_from (map (fun x => if same_name x name then fresh else x) a) = existsb is_from a.
+Notation alpha1 := (alpha name fresh suffix).
+
+(* a parameter with the suffix appended is, for every comparison of names, the fresh name *)
+Lemma lname_suffixed x : same_name x name = true -> lname (x ++ suffix) = lname fresh.
 Proof.
-  induction a as [|x a IH]; [reflexivity|]. cbn [map existsb]. rewrite IH. destruct (same_name x name) eqn:E; [|reflexivity].
-  rewrite Hf, (Hn x E). reflexivity.
+  intros H. apply same_iff in H. rewrite Hfs. unfold ExRefactor.lname in *. rewrite !map_app, H. reflexivity.
 Qed.
 
-Lemma alpha_has_renamed : forall e inb bnd, has_renamed bnd (alpha name fresh inb e) = has_renamed bnd e.
+Lemma same_suffixed_l x y : same_name x name = true -> same_name (x ++ suffix) y = same_name fresh y.
+Proof. intros H. unfold ExRefactor.same_name. rewrite (lname_suffixed x H). reflexivity. Qed.
+
+Lemma same_suffixed_r x y : same_name x name = true -> same_name y (x ++ suffix) = same_name y fresh.
+Proof. intros H. unfold ExRefactor.same_name. rewrite (lname_suffixed x H). reflexivity. Qed.
+
+Lemma alpha_args_from a :
+  existsb is_from (map (fun x => if same_name x name then x ++ suffix else x) a) = existsb is_from a.
+Proof.
+  induction a as [|x a IH]; [reflexivity|]. cbn [map existsb]. rewrite IH. destruct (same_name x name) eqn:E; [|reflexivity].
+  unfold ExRefactor.is_from at 1. rewrite (same_suffixed_l x from E). fold (is_from fresh). rewrite Hf, (Hn x E). reflexivity.
+Qed.
+
+Lemma alpha_has_renamed : forall e inb bnd, has_renamed bnd (alpha1 inb e) = has_renamed bnd e.
 Proof.
   induction e as [n|c l IHc|c l IHc IHl|f ps IHf IHps|a b IHb|o a b IHa IHb|a IHa|a IHa|v|l|b|] using expr_ind';
     intros inb bnd; cbn [ExRefactor.alpha ExRefactor.has_renamed]; try reflexivity; auto.
@@ -199,7 +214,7 @@ Qed.
 
 (* the captures of another name are what they were *)
 Lemma alpha_captures_other m : same_name m name = false -> same_name m fresh = false ->
-  forall e inb bnd, captures m bnd (alpha name fresh inb e) = captures m bnd e.
+  forall e inb bnd, captures m bnd (alpha1 inb e) = captures m bnd e.
 Proof.
   intros H1 H2.
   induction e as [n|c l IHc|c l IHc IHl|f ps IHf IHps|a b IHb|o a b IHa IHb|a IHa|a IHa|v|l|b|] using expr_ind';
@@ -210,7 +225,7 @@ Proof.
   - destruct (existsb (fun x => same_name x name) a) eqn:E; cbn [ExRefactor.captures].
     + rewrite alpha_args_from, alpha_has_renamed, IHb. f_equal. f_equal.
       clear E. induction a as [|x a IH]; [reflexivity|]. cbn [map existsb]. rewrite IH. destruct (same_name x name) eqn:Ex; [|reflexivity].
-      rewrite H2. assert (Hx : same_name m x = false).
+      rewrite (same_suffixed_r x m Ex), H2. assert (Hx : same_name m x = false).
       { rewrite same_sym. apply (same_trans_false x name m Ex). rewrite same_sym. exact H1. }
       rewrite Hx. reflexivity.
     + rewrite alpha_has_renamed, IHb. reflexivity.
@@ -219,7 +234,7 @@ Qed.
 
 (* no function has a parameter of that name any more *)
 Lemma alpha_captures_self : same_name name fresh = false ->
-  forall e inb bnd, captures name bnd (alpha name fresh inb e) = false.
+  forall e inb bnd, captures name bnd (alpha1 inb e) = false.
 Proof.
   intros H1.
   induction e as [n|c l IHc|c l IHc IHl|f ps IHf IHps|a b IHb|o a b IHa IHb|a IHa|a IHa|v|l|b|] using expr_ind';
@@ -228,15 +243,15 @@ Proof.
   - rewrite IHc, IHl. reflexivity.
   - rewrite IHf. cbn [orb]. induction IHps as [|x r Hx Hr IH]; [reflexivity|]. cbn [map existsb]. rewrite Hx, IH. reflexivity.
   - destruct (existsb (fun x => same_name x name) a) eqn:E; cbn [ExRefactor.captures]; rewrite IHb, orb_false_r.
-    + replace (existsb (same_name name) (map (fun x => if same_name x name then fresh else x) a)) with false; [reflexivity|].
+    + replace (existsb (same_name name) (map (fun x => if same_name x name then x ++ suffix else x) a)) with false; [reflexivity|].
       symmetry. clear E. induction a as [|x a IH]; [reflexivity|]. cbn [map existsb]. rewrite IH, orb_false_r.
-      destruct (same_name x name) eqn:Ex; [exact H1|]. rewrite same_sym. exact Ex.
+      destruct (same_name x name) eqn:Ex; [rewrite (same_suffixed_r x name Ex); exact H1|]. rewrite same_sym. exact Ex.
     + replace (existsb (same_name name) a) with false; [reflexivity|].
       symmetry. rewrite <- E. clear E. induction a as [|x a IH]; [reflexivity|]. cbn [existsb]. rewrite IH, same_sym. reflexivity.
   - rewrite IHa, IHb. reflexivity.
 Qed.
 
-Lemma alpha_used : forall e inb x, In x (used_names (alpha name fresh inb e)) -> x = lname fresh \/ In x (used_names e).
+Lemma alpha_used : forall e inb x, In x (used_names (alpha1 inb e)) -> x = lname fresh \/ In x (used_names e).
 Proof.
   induction e as [n|c l IHc|c l IHc IHl|f ps IHf IHps|a b IHb|o a b IHa IHb|a IHa|a IHa|v|l|b|] using expr_ind';
     intros inb x; cbn [ExRefactor.alpha ExRefactor.used_names]; try (intros []); eauto.
@@ -248,12 +263,52 @@ Proof.
       induction IHps as [|y r Hy Hr IH]; [contradiction|]. cbn [map flat_map] in *. apply in_app_or in H.
       destruct H as [H|H]; [apply Hy in H|apply IH in H]; destruct H; auto using in_or_app.
   - destruct (existsb (fun y => same_name y name) a); cbn [ExRefactor.used_names]; intros H; apply in_app_or in H; destruct H as [H|H].
-    + rewrite map_map in H. apply in_map_iff in H. destruct H as (y & <- & Hy). destruct (same_name y name); [left; reflexivity|].
+    + rewrite map_map in H. apply in_map_iff in H. destruct H as (y & <- & Hy). destruct (same_name y name) eqn:Ey; [left; apply lname_suffixed; exact Ey|].
       right. apply in_or_app. left. apply in_map. exact Hy.
     + apply IHb in H. destruct H; auto using in_or_app.
     + right. apply in_or_app. left. exact H.
     + apply IHb in H. destruct H; auto using in_or_app.
   - intros H. apply in_app_or in H. destruct H as [H|H]; [apply IHa in H|apply IHb in H]; destruct H; auto using in_or_app.
+Qed.
+
+(* parameter lists without a repeated spelling stay so: x ++ suffix = y ++ suffix only for x = y, and a parameter that
+   was not touched is not the suffixed form of another one because the fresh name is new *)
+Lemma alpha_args_distinct a : (forall y, In y a -> lname y <> lname fresh) ->
+  distinct a = true -> distinct (map (fun x => if same_name x name then x ++ suffix else x) a) = true.
+Proof.
+  set (g := fun x => if same_name x name then x ++ suffix else x).
+  induction a as [|x a IH]; intros Hnew H; [reflexivity|].
+  cbn [distinct] in H. apply andb_prop in H. destruct H as [H1 H2]. cbn [map distinct].
+  rewrite IH; [|intros y Hy; apply Hnew; right; exact Hy|exact H2]. rewrite andb_true_r.
+  apply negb_true_iff. apply negb_true_iff in H1.
+  destruct (existsb (text_eqb (g x)) (map g a)) eqn:E; [|reflexivity]. exfalso.
+  apply existsb_teq_in in E. apply in_map_iff in E. destruct E as (y & Ey & Hy).
+  assert (Hxy : x = y).
+  { unfold g in Ey. destruct (same_name y name) eqn:E1, (same_name x name) eqn:E2.
+    - apply app_inv_tail in Ey. congruence.
+    - exfalso. apply (Hnew x (or_introl eq_refl)). rewrite <- Ey. apply lname_suffixed. exact E1.
+    - exfalso. apply (Hnew y (or_intror Hy)). rewrite Ey. apply lname_suffixed. exact E2.
+    - congruence. }
+  subst y. apply existsb_teq_in in Hy. congruence.
+Qed.
+
+Lemma alpha_distinct : forall e inb, ~ In (lname fresh) (used_names e) ->
+  distinct_params e = true -> distinct_params (alpha1 inb e) = true.
+Proof.
+  induction e as [n|c l IHc|c l IHc IHl|f ps IHf IHps|a b IHb|o a b IHa IHb|a IHa|a IHa|v|l|b|] using expr_ind';
+    intros inb Hu; cbn [ExRefactor.alpha distinct_params ExRefactor.used_names] in *; try reflexivity; auto.
+  - destruct (inb && same_name n name); reflexivity.
+  - intros H. apply andb_prop in H. destruct H as [H1 H2]. rewrite IHc, IHl; auto; intros Hx; apply Hu; apply in_or_app; auto.
+  - intros H. apply andb_prop in H. destruct H as [H1 H2].
+    rewrite IHf; [|intros Hx; apply Hu; apply in_or_app; auto|exact H1]. cbn [andb].
+    assert (Hu2 : ~ In (lname fresh) (flat_map used_names ps)) by (intros Hx; apply Hu; apply in_or_app; auto).
+    clear Hu H1 IHf. induction IHps as [|x r Hx Hr IH]; [reflexivity|]. cbn [map forallb flat_map] in *.
+    apply andb_prop in H2. destruct H2 as [H3 H4]. rewrite Hx, IH; auto; intros Hy; apply Hu2; apply in_or_app; auto.
+  - intros H. apply andb_prop in H. destruct H as [H1 H2].
+    assert (Hb : ~ In (lname fresh) (used_names b)) by (intros Hx; apply Hu; apply in_or_app; auto).
+    destruct (existsb (fun x => same_name x name) a); cbn [distinct_params]; rewrite IHb by assumption; rewrite andb_true_r; [|exact H1].
+    apply alpha_args_distinct; [|exact H1]. intros y Hy E. apply Hu. apply in_or_app. left. rewrite <- E. apply in_map. exact Hy.
+  - intros H. apply andb_prop in H. destruct H as [H1 H2]. rewrite IHa, IHb; auto; intros Hx; apply Hu; apply in_or_app; auto.
 Qed.
 
 End Alpha.
@@ -292,6 +347,36 @@ Proof.
   rewrite (H n (or_introl eq_refl)). apply IH. intros m Hm. apply H. right. exact Hm.
 Qed.
 
+(* the fresh name picked for a capturing name n of the replacement *)
+Lemma fresh_facts n used e : In n TN -> captures n false e = true -> (forall x, In x (used_names e) -> In x used) ->
+  let taken := used ++ TN in
+  let fr := pick_fresh (S (length taken)) (n ++ [95]) taken in
+  let sfx := skipn (length n) fr in
+  fr = n ++ sfx /\ ~ In fr used /\ ~ In fr TN /\ lname fr = fr
+  /\ (forall x, same_name x n = true -> is_from x = false) /\ is_from fr = false /\ same_name n fr = false.
+Proof.
+  intros HnT EC Hused taken fr sfx.
+  destruct (pick_fresh_spec (S (length taken)) (n ++ [95]) taken) as (Hfr & k & Hk).
+  { apply Nat.lt_succ_r. apply count_ge_le. }
+  fold fr in Hfr, Hk.
+  assert (Hk' : fr = n ++ repeat 95 (S k)) by (rewrite Hk, <- app_assoc; reflexivity).
+  assert (Hsfx : fr = n ++ sfx).
+  { unfold sfx. rewrite Hk' at 2. rewrite skipn_app, skipn_all, Nat.sub_diag. cbn [skipn app]. exact Hk'. }
+  assert (Hfr_used : ~ In fr used).
+  { intros H. assert (H' : In fr taken) by (apply in_or_app; left; exact H). apply existsb_teq_in in H'. congruence. }
+  assert (Hfr_tn : ~ In fr TN).
+  { intros H. assert (H' : In fr taken) by (apply in_or_app; right; exact H). apply existsb_teq_in in H'. congruence. }
+  pose proof (target_names_norm n HnT) as Hnn.
+  assert (Hfrl : lname fr = fr) by (rewrite Hk'; apply lname_fresh; exact Hnn).
+  assert (Hnf : same_name n from = false).
+  { destruct (same_name n from) eqn:E; [|reflexivity]. rewrite (captures_from n E) in EC. discriminate. }
+  repeat split; try assumption.
+  - intros x Hx. unfold ExRefactor.is_from. exact (same_trans_false _ _ _ Hx Hnf).
+  - unfold ExRefactor.is_from, ExRefactor.same_name. rewrite Hfrl. apply teq_neq. intros E.
+    apply Hfr_used. rewrite E. apply Hused. exact (captures_used _ _ _ EC).
+  - unfold ExRefactor.same_name. rewrite Hnn, Hfrl. apply teq_neq. intros E. apply Hfr_tn. rewrite <- E. exact HnT.
+Qed.
+
 (* (2) after avoid nothing is captured *)
 Theorem avoid_no_capture : forall names used e,
   (forall n, In n names -> In n TN) -> (forall x, In x (used_names e) -> In x used) ->
@@ -304,29 +389,12 @@ Proof.
   assert (HnT : In n TN) by (apply Hsub; left; reflexivity).
   destruct (captures n false e) eqn:EC.
   2:{ apply IH; try assumption. destruct Hor as [[<-|H]|H]; [right; exact EC|left; exact H|right; exact H]. }
-  set (taken := used ++ TN).
-  destruct (pick_fresh_spec (S (length taken)) (n ++ [95]) taken) as (Hfr & k & Hk).
-  { apply Nat.lt_succ_r. apply count_ge_le. }
-  set (fr := pick_fresh (S (length taken)) (n ++ [95]) taken) in *.
-  assert (Hfr_used : ~ In fr used).
-  { intros H. assert (H' : In fr taken) by (apply in_or_app; left; exact H). apply existsb_teq_in in H'. congruence. }
-  assert (Hfr_tn : ~ In fr TN).
-  { intros H. assert (H' : In fr taken) by (apply in_or_app; right; exact H). apply existsb_teq_in in H'. congruence. }
+  destruct (fresh_facts n used e HnT EC Hused) as (Hsfx & Hfr_used & Hfr_tn & Hfrl & Hn' & Hf' & Hself).
+  set (taken := used ++ TN) in *. set (fr := pick_fresh (S (length taken)) (n ++ [95]) taken) in *.
+  set (sfx := skipn (length n) fr) in *.
   pose proof (target_names_norm n HnT) as Hnn.
-  assert (Hfrl : lname fr = fr).
-  { rewrite Hk, <- app_assoc. change ([95] ++ repeat 95 k) with (repeat 95 (S k)). apply lname_fresh. exact Hnn. }
-  (* the name is not `from`, the fresh name neither *)
-  assert (Hnf : same_name n from = false).
-  { destruct (same_name n from) eqn:E; [|reflexivity]. rewrite (captures_from n E) in EC. discriminate. }
-  assert (Hn' : forall x, same_name x n = true -> is_from x = false).
-  { intros x Hx. unfold ExRefactor.is_from. exact (same_trans_false _ _ _ Hx Hnf). }
-  assert (Hf' : is_from fr = false).
-  { unfold ExRefactor.is_from, ExRefactor.same_name. rewrite Hfrl. apply teq_neq. intros E.
-    apply Hfr_used. rewrite E. apply Hused. exact (captures_used _ _ _ EC). }
-  assert (Hself : same_name n fr = false).
-  { unfold ExRefactor.same_name. rewrite Hnn, Hfrl. apply teq_neq. intros E. apply Hfr_tn. rewrite <- E. exact HnT. }
   apply IH; try assumption.
-  - intros x Hx. apply (alpha_used n fr) in Hx. destruct Hx as [->|Hx]; [left; symmetry; exact Hfrl|right; apply Hused; exact Hx].
+  - intros x Hx. apply (alpha_used n fr sfx Hsfx) in Hx. destruct Hx as [->|Hx]; [left; symmetry; exact Hfrl|right; apply Hused; exact Hx].
   - destruct (text_eqb m n) eqn:Emn.
     + apply teq_eq in Emn. subst m. right. apply alpha_captures_self; assumption.
     + destruct Hor as [[E|H]|H].
@@ -337,9 +405,31 @@ Proof.
         -- unfold ExRefactor.same_name. rewrite (target_names_norm m Hm), Hfrl. apply teq_neq. intros E. apply Hfr_tn. rewrite <- E. exact Hm.
 Qed.
 
+(* (3) parameters are never merged: parameter lists without a repeated spelling stay so *)
+Theorem avoid_distinct : forall names used e,
+  (forall n, In n names -> In n TN) -> (forall x, In x (used_names e) -> In x used) ->
+  distinct_params e = true -> distinct_params (avoid names used e) = true.
+Proof.
+  induction names as [|n rest IH]; intros used e Hsub Hused Hd; [exact Hd|].
+  cbn [ExRefactor.avoid].
+  assert (Hrest : forall x, In x rest -> In x TN) by (intros x Hx; apply Hsub; right; exact Hx).
+  assert (HnT : In n TN) by (apply Hsub; left; reflexivity).
+  destruct (captures n false e) eqn:EC; [|apply IH; assumption].
+  destruct (fresh_facts n used e HnT EC Hused) as (Hsfx & Hfr_used & Hfr_tn & Hfrl & Hn' & Hf' & Hself).
+  set (taken := used ++ TN) in *. set (fr := pick_fresh (S (length taken)) (n ++ [95]) taken) in *.
+  set (sfx := skipn (length n) fr) in *.
+  apply IH; try assumption.
+  - intros x Hx. apply (alpha_used n fr sfx Hsfx) in Hx. destruct Hx as [->|Hx]; [left; symmetry; exact Hfrl|right; apply Hused; exact Hx].
+  - apply alpha_distinct; try assumption. rewrite Hfrl. intros H. apply Hfr_used. apply Hused. exact H.
+Qed.
+
 (* the statement for the whole transformation *)
 Corollary rename_full_no_capture e : forall m, In m TN ->
   captures m false (avoid TN (used_names e) e) = false.
 Proof. intros m Hm. apply avoid_no_capture; auto. Qed.
+
+Corollary rename_full_distinct e : distinct_params e = true ->
+  distinct_params (avoid TN (used_names e) e) = true.
+Proof. intros H. apply avoid_distinct; auto. Qed.
 
 End AvoidProofs.
